@@ -96,6 +96,56 @@ fn eval(t: &[&str]) -> Option<String> {
             .to_string()
         }
         "fract" => show(one(t)?.fract()),
+        // the two other crates the model ports: uuid (Uuid::parse_str, the contract's own is_hyphenated_uuid_str, the
+        // hyphenated form) and semver (Version::parse and the four requirements the contract uses)
+        "uuid" => {
+            if t.len() != 2 {
+                return None;
+            }
+            let bytes = dec(t[1]).ok()?;
+            match String::from_utf8(bytes) {
+                Err(_) => "0".to_string(),
+                Ok(s) => match uuid::Uuid::parse_str(&s) {
+                    Err(_) => "0".to_string(),
+                    Ok(u) => format!(
+                        "1 {} {}",
+                        if ats_smart_contract::util::is_hyphenated_uuid_str(&s) { 1 } else { 0 },
+                        enc_str(&u.hyphenated().to_string())
+                    ),
+                },
+            }
+        }
+        "ver" => {
+            if t.len() != 2 {
+                return None;
+            }
+            let bytes = dec(t[1]).ok()?;
+            match String::from_utf8(bytes) {
+                Err(_) => "err".to_string(),
+                Ok(s) => match semver::Version::parse(&s) {
+                    Err(_) => "err".to_string(),
+                    Ok(v) => {
+                        let m = |r: &str| -> u8 {
+                            match semver::VersionReq::parse(r) {
+                                Ok(q) => u8::from(q.matches(&v)),
+                                Err(_) => 9,
+                            }
+                        };
+                        format!(
+                            "{} {} {} {} {} {} {} {}",
+                            v.major,
+                            v.minor,
+                            v.patch,
+                            if v.pre.is_empty() { 0 } else { 1 },
+                            m(">=0.16.2"),
+                            m(">=0.15.0"),
+                            m(">=0.16.2, <0.19.1"),
+                            m("<0.16.2")
+                        )
+                    }
+                },
+            }
+        }
         _ => return None,
     })
 }
